@@ -26,6 +26,9 @@ import probe as P     # noqa: E402
 
 REPO = os.environ.get('VP_REPO', '/repo')
 BUILD = os.environ.get('VERIF_BUILD', os.path.join(ROOT, 'build'))
+# evidence and replay files describe /repo itself; a development run against another tree (VP_REPO, used by
+# framework/seedtest.sh) must never overwrite them
+OUT = ROOT if os.path.realpath(REPO) == '/repo' else BUILD
 VERUS_FLAGS = ['--cfg', 'feature="std"', '--cfg', 'feature="default-resolver"', '--triggers-mode', 'silent',
                '--multiple-errors', '60', '--output-json', '--time', '--error-format=json']
 CRATE_MODS = ('constants', 'error', 'utils', 'types', 'cipherstate', 'symmetricstate', 'handshakestate',
@@ -689,7 +692,7 @@ def check_property(pid, tier, res=None, vres=None, quiet=False):
     known = load_known()
     violations = []
     known_hits = []
-    os.makedirs(os.path.join(ROOT, 'replays'), exist_ok=True)
+    os.makedirs(os.path.join(OUT, 'replays'), exist_ok=True)
     for key, errs in sorted(failed.items(), key=lambda kv: str(kv[0])):
         oid = '%s#%s' % key
         for e in errs:
@@ -713,7 +716,7 @@ def check_property(pid, tier, res=None, vres=None, quiet=False):
     if pf and not violations:
         # no directly failed obligation (green proof, or undecided), but a concrete failing input exists on the real code
         verdict = 1
-        rp = os.path.join(ROOT, 'replays', '%s-probe.json' % pid)
+        rp = os.path.join(OUT, 'replays', '%s-probe.json' % pid)
         json.dump({'property': pid, 'failed_obligation': ('; '.join(sorted('%s#%s' % k for k in tainted_failed)) or 'none discharged-status changed') ,
                    'counterexample': pf[:10], 'found_by': 'replay probe probes/vp_probe.rs on the real code (oracle: cacophony test vectors / the property statement)',
                    'reproduce': 'python3 framework/probe.py   (prints the PROBE-FINDING lines for the current /repo working tree)',
@@ -726,7 +729,7 @@ def check_property(pid, tier, res=None, vres=None, quiet=False):
         for oid, e in violations:
             byo.setdefault(oid, []).append(e)
         for oid, es in byo.items():
-            rp = os.path.join(ROOT, 'replays', '%s-%s.json' % (pid, re.sub(r'[^A-Za-z0-9_.#-]+', '_', oid)))
+            rp = os.path.join(OUT, 'replays', '%s-%s.json' % (pid, re.sub(r'[^A-Za-z0-9_.#-]+', '_', oid)))
             json.dump({'property': pid, 'failed_obligation': oid,
                        'clause': es[0].get('clause', ''), 'contract_location': es[0].get('where', ''),
                        'sites_in_extracted_code': [x.get('site', '') for x in es],
@@ -785,8 +788,8 @@ def check_property(pid, tier, res=None, vres=None, quiet=False):
         'wall_s': round(time.time() - t0 + (0 if res['cache_hit'] else res['wall_s']), 2),
         'violations': len({oid for oid, _ in violations}) + (1 if (pf and not violations) else 0),
     }
-    os.makedirs(os.path.join(ROOT, 'evidence'), exist_ok=True)
-    json.dump(ev, open(os.path.join(ROOT, 'evidence', pid + '.json'), 'w'), indent=1)
+    os.makedirs(os.path.join(OUT, 'evidence'), exist_ok=True)
+    json.dump(ev, open(os.path.join(OUT, 'evidence', pid + '.json'), 'w'), indent=1)
     if not quiet:
         for l in lines_out:
             print(l)
@@ -818,12 +821,12 @@ def undecided_fallback(pids, tier, why):
     probe = P.run_probe(REPO, BUILD)
     known = load_known()
     rc = 2
-    os.makedirs(os.path.join(ROOT, 'replays'), exist_ok=True)
-    os.makedirs(os.path.join(ROOT, 'evidence'), exist_ok=True)
+    os.makedirs(os.path.join(OUT, 'replays'), exist_ok=True)
+    os.makedirs(os.path.join(OUT, 'evidence'), exist_ok=True)
     for pid in pids:
         pf = [f for f in probe.get('findings', {}).get(pid, []) if not any(k['property'] == pid and k['obligation'] == 'probe' and k['site'] in f for k in known)]
         if pf:
-            rp = os.path.join(ROOT, 'replays', '%s-probe.json' % pid)
+            rp = os.path.join(OUT, 'replays', '%s-probe.json' % pid)
             json.dump({'property': pid, 'failed_obligation': 'undecided: ' + why[:600], 'counterexample': pf[:10],
                        'found_by': 'replay probe probes/vp_probe.rs on the real code', 'reproduce': 'python3 framework/probe.py', 'repo': REPO}, open(rp, 'w'), indent=1)
             print('VIOLATION property=%s replay=%s' % (pid, rp))
@@ -834,7 +837,7 @@ def undecided_fallback(pids, tier, why):
                    'coverage': {'explanation': 'The deductive check was UNDECIDED on this tree (%s). Counterexample search on the real code: %d probe tests, findings for this property: %s' % (why.split('\n')[0][:300], len(probe.get('tests', {})), pf[:5]),
                                 'replay_probe': {'tests': probe.get('tests'), 'findings_for_this_property': pf}},
                    'assumptions': ['undecided run: no proof obligations were discharged'], 'wall_s': probe.get('wall_s', 0.0), 'violations': 1 if pf else 0},
-                  open(os.path.join(ROOT, 'evidence', pid + '.json'), 'w'), indent=1)
+                  open(os.path.join(OUT, 'evidence', pid + '.json'), 'w'), indent=1)
     return rc
 
 
